@@ -6,11 +6,9 @@ The lexer (parol/scnr2) is trusted for ordinary tokens and for the (line, column
 comment run; what is modelled and proved here is what veryl itself computes from them:
 `split_comment_token` (one token per comment of a run) and `Token::end_line/end_column`.
 
-`SplitPositionsCorrect` is the full-strength statement.  It is FALSE of `split_comment_token` as
-coded (`split_positions_correct_false`, with the two independent defects isolated in
-`split_pos_false` and `split_col_false`); `split_positions_partial` says exactly what does hold, and
-`split_positions_correct_fixed` proves the full statement for the repaired function
-`splitCommentTokenFixed` (Core/TokenPos.lean, bottom).
+`split_positions_correct` is the full-strength statement about the code as it stands.
+The `old_*` theorems document the two defects of `split_comment_token` before its repair
+(`splitCommentTokenOld`): the full statement was false of it.
 -/
 namespace VerylModel.Props.C12
 open VerylModel.TokenPos
@@ -25,126 +23,26 @@ def SplitPositionsCorrect (split : Text → Nat → Nat → Nat → List Tok) : 
       occursAt (pre ++ run ++ post) t.pos t.text = true ∧ t.len = utf8Len t.text ∧
       (t.line, t.col) = lineCol (pre ++ run ++ post) t.pos
 
-/-- `split_comment_token` as coded (it never reads the run's own `pos`). -/
-def splitCoded (run : Text) (line col _basePos : Nat) : List Tok := splitCommentToken run line col
-
-/-- `/* é */ /* b */⏎` -/
-def witnessMultibyte : Text :=
-  [47, 42, 32, 233, 32, 42, 47, 32, 47, 42, 32, 98, 32, 42, 47, 10]
-
-/-- `/* a */⏎` -/
-def witnessAscii : Text := [47, 42, 32, 97, 32, 42, 47, 10]
-
-/-- `a ` -/
-def witnessPre : Text := [97, 32]
-
-/-- What the code reports for `/* é */ /* b */`: the second comment at column 10 with pos 16
-(true: column 9, pos 9), the first with pos 8 (true: 0). -/
-theorem witness_multibyte_reported :
-    (splitCommentToken witnessMultibyte 1 1).map (fun t => (t.line, t.col, t.pos, t.len, t.off)) =
-      [(1, 1, 8, 8, 0), (1, 10, 16, 7, 9)] := by decide
-
-/-- The full-strength statement is false of the code as it stands. -/
-theorem split_positions_correct_false : ¬ SplitPositionsCorrect splitCoded := by
-  intro h
-  have := h [] witnessMultibyte [] 1 1 (by decide)
-  revert this
-  decide
-
-/-- Defect 1 (`pos: pos as u32 + length`): pure ASCII, the comment `/* a */` after `a ` is reported
-with `pos = 7` (offset inside the run 0 + length 7) while it stands at byte 2. -/
-theorem split_pos_false :
-    ¬ (∀ (pre run post : Text) (bl bc : Nat),
-        (bl, bc) = lineCol (pre ++ run ++ post) (utf8Len pre) →
-        ∀ t ∈ splitCommentToken run bl bc, occursAt (pre ++ run ++ post) t.pos t.text = true) := by
-  intro h
-  have := h witnessPre witnessAscii [] 1 3 (by decide)
-  revert this
-  decide
-
-/-- Defect 2 (`column + prev_text.len()`): even judged at the TRUE offset of the comment, the
-column is wrong after a multi-byte character on the same line. -/
-theorem split_col_false :
-    ¬ (∀ (pre run post : Text) (bl bc : Nat),
-        (bl, bc) = lineCol (pre ++ run ++ post) (utf8Len pre) →
-        ∀ t ∈ splitCommentToken run bl bc,
-          (t.line, t.col) = lineCol (pre ++ run ++ post) (utf8Len pre + t.off)) := by
-  intro h
-  have := h [] witnessMultibyte [] 1 1 (by decide)
-  revert this
-  decide
-
-/-- The same holds after a line feed inside the run: `/*⏎é */ /* b */` (byte column after the
-last `\n`). -/
-theorem split_col_false_multiline :
-    ¬ (∀ t ∈ splitCommentToken [47, 42, 10, 233, 32, 42, 47, 32, 47, 42, 32, 98, 32, 42, 47, 10] 1 1,
-          (t.line, t.col) =
-            lineCol [47, 42, 10, 233, 32, 42, 47, 32, 47, 42, 32, 98, 32, 42, 47, 10] t.off) := by
-  decide
-
-/-- What does hold of the code as it stands, for every run in every source:
-the text of each token really stands in the source, `off` bytes after the start of the run, with
-the reported byte length; `pos` is `off + length` (run-relative end, not the source offset); the
-line is right; the column exceeds the true column by exactly (bytes − characters) of the run's text
-between the last line feed (or the run's start) and the comment — so it is right whenever that
-text is ASCII. -/
-theorem split_positions_partial (pre run post : Text) (bl bc : Nat)
-    (hbase : (bl, bc) = lineCol (pre ++ run ++ post) (utf8Len pre)) :
-    ∀ t ∈ splitCommentToken run bl bc,
-      ∃ Q R, run = Q ++ t.text ++ R ∧ t.off = utf8Len Q ∧
-        occursAt (pre ++ run ++ post) (utf8Len pre + t.off) t.text = true ∧
-        t.len = utf8Len t.text ∧
-        t.pos = t.off + t.len ∧
-        t.line = (lineCol (pre ++ run ++ post) (utf8Len pre + t.off)).1 ∧
-        t.col + (lastSeg Q).length =
-          (lineCol (pre ++ run ++ post) (utf8Len pre + t.off)).2 + utf8Len (lastSeg Q) ∧
-        ((∀ c ∈ lastSeg Q, c < 128) →
-          (t.line, t.col) = lineCol (pre ++ run ++ post) (utf8Len pre + t.off)) := by
-  intro t ht
-  obtain ⟨tr, htr⟩ := scanFuel_partition (run.length + 1) run
-  have hg := splitLoop_good utf8Size stepCoded mkPosCoded stepCoded_eq (bl, bc) run
-    (scanComments run) [] [] tr (bl, bc) 0 (by simpa [scanComments] using htr.symm) rfl rfl t ht
-  obtain ⟨⟨Q, R, hrun, hoff, hlc, hlen⟩, hpos⟩ := hg
-  have hsrc : pre ++ run ++ post = (pre ++ Q) ++ (t.text ++ (R ++ post)) := by simp [hrun]
-  have hocc : occursAt (pre ++ run ++ post) (utf8Len pre + t.off) t.text = true := by
-    rw [hsrc, hoff, ← utf8Len_append]; exact occursAt_append _ _ _
-  have hbase' : (bl, bc) = advanceAll (1, 1) pre := by
-    rw [hbase, List.append_assoc]; exact lineCol_prefix pre (run ++ post)
-  have hpos' : lineCol (pre ++ run ++ post) (utf8Len pre + t.off) = advanceAll (bl, bc) Q := by
-    rw [hsrc, hoff, ← utf8Len_append, lineCol_prefix, hbase']
-    simp [advanceAll, advanceWAll_append]
-  have hv := advanceW_vs_char (bl, bc) Q
-  have h1 : t.line = (advanceWAll utf8Size (bl, bc) Q).1 := by rw [← hlc]
-  have h2 : t.col = (advanceWAll utf8Size (bl, bc) Q).2 := by rw [← hlc]
-  refine ⟨Q, R, hrun, hoff, hocc, hlen, hpos, ?_, ?_, ?_⟩
-  · rw [hpos', h1]; exact hv.1
-  · rw [hpos', h2]; exact hv.2
-  · intro hascii
-    have hb := utf8Len_ascii (lastSeg Q) hascii
-    rw [hpos']
-    have hc : t.col = (advanceAll (bl, bc) Q).2 := by rw [h2]; omega
-    have hl : t.line = (advanceAll (bl, bc) Q).1 := by rw [h1]; exact hv.1
-    rw [hl, hc]
-
-/-- The repaired function satisfies the full-strength statement. -/
-theorem split_positions_correct_fixed : SplitPositionsCorrect splitCommentTokenFixed := by
+/-- `split_comment_token` reports true positions: every run, every source, multi-byte text, CRLF,
+several comments per line, comments spanning lines. -/
+theorem split_positions_correct : SplitPositionsCorrect splitCommentToken := by
   intro pre run post bl bc hbase t ht
   obtain ⟨tr, htr⟩ := scanFuel_partition (run.length + 1) run
-  have hg := splitLoop_good (fun _ => 1) stepFixed (fun pos _ => utf8Len pre + pos) stepFixed_eq
+  have hg := splitLoop_good (fun _ => 1) stepCoded (mkPosCoded (utf8Len pre)) stepCoded_eq
     (bl, bc) run (scanComments run) [] [] tr (bl, bc) 0
     (by simpa [scanComments] using htr.symm) rfl rfl t ht
   obtain ⟨⟨Q, R, hrun, hoff, hlc, hlen⟩, hpos⟩ := hg
   have hsrc : pre ++ run ++ post = (pre ++ Q) ++ (t.text ++ (R ++ post)) := by simp [hrun]
   have hbase' : (bl, bc) = advanceAll (1, 1) pre := by
     rw [hbase, List.append_assoc]; exact lineCol_prefix pre (run ++ post)
-  have hp : t.pos = utf8Len (pre ++ Q) := by rw [hpos, hoff, utf8Len_append]
+  have hp : t.pos = utf8Len (pre ++ Q) := by rw [hpos, hoff, utf8Len_append]; rfl
   refine ⟨?_, hlen, ?_⟩
   · rw [hp, hsrc]; exact occursAt_append _ _ _
   · rw [hp, hsrc, lineCol_prefix, hlc, hbase']
     simp [advanceAll, advanceWAll_append]
 
-/-- `Token::end_line`/`end_column` (character based since the parser's own fix): one column past
-the reported end is where walking the token's text from its start arrives. -/
+/-- `Token::end_line`/`end_column`: one column past the reported end is where walking the token's
+text from its start arrives. -/
 theorem end_line_col_correct (text : Text) (line col : Nat) (hcol : 1 ≤ col) :
     (endLine text line, endColumn text col + 1) = advanceAll (line, col) text := by
   unfold advanceAll
@@ -170,39 +68,24 @@ theorem end_line_col_in_source (pre text post : Text) (line col : Nat)
   rw [end_line_col_correct text line col hcol, ← utf8Len_append, lineCol_prefix, hbase]
   simp [advanceAll, advanceWAll_append]
 
-/-- Comment tokens of a run come out in source order and do not overlap (true offsets); the
-reported `pos` values, although shifted, are strictly increasing as well. -/
-theorem source_order (run : Text) (bl bc : Nat) :
-    List.Pairwise (fun a b : Tok => a.off + a.len ≤ b.off ∧ a.pos < b.pos)
-      (splitCommentToken run bl bc) := by
-  have hord := splitLoop_order stepCoded mkPosCoded (scanComments run) [] (bl, bc) 0
+/-- Comment tokens of a run come out in source order and do not overlap: each ends at or before
+the `pos` of the next, and `pos` strictly increases. -/
+theorem source_order (run : Text) (bl bc base : Nat) :
+    List.Pairwise (fun a b : Tok => a.pos + a.len ≤ b.pos ∧ a.pos < b.pos)
+      (splitCommentToken run bl bc base) := by
+  have hord := splitLoop_order stepCoded (mkPosCoded base) (scanComments run) [] (bl, bc) 0
   obtain ⟨tr, htr⟩ := scanFuel_partition (run.length + 1) run
-  have hfacts : ∀ t ∈ splitCommentToken run bl bc, t.pos = t.off + t.len ∧ 2 ≤ t.len := by
+  have hfacts : ∀ t ∈ splitCommentToken run bl bc base, t.pos = base + t.off ∧ 2 ≤ t.len := by
     intro t ht
-    have hg := splitLoop_good utf8Size stepCoded mkPosCoded stepCoded_eq (bl, bc) run
+    have hg := splitLoop_good (fun _ => 1) stepCoded (mkPosCoded base) stepCoded_eq (bl, bc) run
       (scanComments run) [] [] tr (bl, bc) 0 (by simpa [scanComments] using htr.symm) rfl rfl t ht
     obtain ⟨⟨Q, R, _, _, _, hlen⟩, hpos⟩ := hg
-    obtain ⟨p, hp, hpt⟩ := splitLoop_text_mem stepCoded mkPosCoded (scanComments run) [] (bl, bc) 0 t ht
+    obtain ⟨p, hp, hpt⟩ :=
+      splitLoop_text_mem stepCoded (mkPosCoded base) (scanComments run) [] (bl, bc) 0 t ht
     have h2 := scanFuel_len2 _ _ p hp
     have h3 := length_le_utf8Len t.text
     refine ⟨hpos, ?_⟩
     rw [hlen]; rw [hpt] at h2; omega
-  refine pairwise_imp_mem hord ?_
-  intro a b ha hb hab
-  have fa := hfacts a ha
-  have fb := hfacts b hb
-  exact ⟨hab, by omega⟩
-
-/-- Same for the repaired function, now about the reported `pos` itself. -/
-theorem source_order_fixed (run : Text) (bl bc base : Nat) :
-    List.Pairwise (fun a b : Tok => a.pos + a.len ≤ b.pos)
-      (splitCommentTokenFixed run bl bc base) := by
-  have hord := splitLoop_order stepFixed (fun pos _ => base + pos) (scanComments run) [] (bl, bc) 0
-  obtain ⟨tr, htr⟩ := scanFuel_partition (run.length + 1) run
-  have hfacts : ∀ t ∈ splitCommentTokenFixed run bl bc base, t.pos = base + t.off := by
-    intro t ht
-    exact (splitLoop_good (fun _ => 1) stepFixed (fun pos _ => base + pos) stepFixed_eq (bl, bc) run
-      (scanComments run) [] [] tr (bl, bc) 0 (by simpa [scanComments] using htr.symm) rfl rfl t ht).2
   refine pairwise_imp_mem hord ?_
   intro a b ha hb hab
   have fa := hfacts a ha
@@ -216,13 +99,62 @@ theorem scan_partition (run : Text) (k : Nat) :
     scanFuel (run.length + 1 + k) run = scanComments run :=
   ⟨scanFuel_partition _ run, scanFuel_enough k run⟩
 
+/-! ### Before the repair (documentation of the two defects, both fixed in /repo) -/
+
+/-- `/* é */ /* b */⏎` -/
+def witnessMultibyte : Text :=
+  [47, 42, 32, 233, 32, 42, 47, 32, 47, 42, 32, 98, 32, 42, 47, 10]
+
+/-- `/* a */⏎` -/
+def witnessAscii : Text := [47, 42, 32, 97, 32, 42, 47, 10]
+
+/-- `a ` -/
+def witnessPre : Text := [97, 32]
+
+/-- The old code never read the run's own `pos`. -/
+def splitOld (run : Text) (line col _basePos : Nat) : List Tok := splitCommentTokenOld run line col
+
+/-- The full-strength statement was false of the old code. -/
+theorem old_split_positions_correct_false : ¬ SplitPositionsCorrect splitOld := by
+  intro h
+  have := h [] witnessMultibyte [] 1 1 (by decide)
+  revert this
+  decide
+
+/-- Old defect 1 (`pos: pos as u32 + length`): pure ASCII, the comment `/* a */` after `a ` was
+reported with `pos = 7` (offset inside the run 0 + length 7) while it stands at byte 2. -/
+theorem old_split_pos_false :
+    ¬ (∀ (pre run post : Text) (bl bc : Nat),
+        (bl, bc) = lineCol (pre ++ run ++ post) (utf8Len pre) →
+        ∀ t ∈ splitCommentTokenOld run bl bc, occursAt (pre ++ run ++ post) t.pos t.text = true) := by
+  intro h
+  have := h witnessPre witnessAscii [] 1 3 (by decide)
+  revert this
+  decide
+
+/-- Old defect 2 (`column + prev_text.len()`): even judged at the TRUE offset of the comment, the
+column was wrong after a multi-byte character on the same line (10 reported, 9 true). -/
+theorem old_split_col_false :
+    ¬ (∀ (pre run post : Text) (bl bc : Nat),
+        (bl, bc) = lineCol (pre ++ run ++ post) (utf8Len pre) →
+        ∀ t ∈ splitCommentTokenOld run bl bc,
+          (t.line, t.col) = lineCol (pre ++ run ++ post) (utf8Len pre + t.off)) := by
+  intro h
+  have := h [] witnessMultibyte [] 1 1 (by decide)
+  revert this
+  decide
+
 /-! Non-vacuity: concrete instances of the hypotheses. -/
 
 example : ((1 : Nat), (3 : Nat)) = lineCol (witnessPre ++ witnessAscii ++ []) (utf8Len witnessPre) := by
   decide
 
-example : (splitCommentTokenFixed witnessMultibyte 1 1 0).map (fun t => (t.line, t.col, t.pos, t.len)) =
+/-- `/* é */ /* b */`: (1,1) pos 0 len 8 and (1,9) pos 9 len 7 (the old code said (1,10), pos 16). -/
+example : (splitCommentToken witnessMultibyte 1 1 0).map (fun t => (t.line, t.col, t.pos, t.len)) =
     [(1, 1, 0, 8), (1, 9, 9, 7)] := by decide
+
+example : (splitCommentTokenOld witnessMultibyte 1 1).map (fun t => (t.line, t.col, t.pos, t.len)) =
+    [(1, 1, 8, 8), (1, 10, 16, 7)] := by decide
 
 /-- `"é⏎日本"` reported at (3, 5): ends on line 4, column 2 (two characters on the last line). -/
 example : (endLine [233, 10, 26085, 26412] 3, endColumn [233, 10, 26085, 26412] 5) = (4, 2) := by decide
